@@ -74,20 +74,21 @@ type fakeStream struct {
 	ctx    context.Context
 	cancel context.CancelFunc
 
-	mu        sync.Mutex
-	sendCalls int
-	obs       []int // outbound message ids in MsgSend entry order
-	foreign   []string
-	parked    *parkedSend
-	drain     bool
-	free      bool // stress mode: a healthy stream's sends pass without parking
-	closed    bool
-	closedCh  chan struct{}
-	endKnown  bool // a fake call has returned an error to the pool (the stream is ending)
-	lateSends int  // MsgSend entries after the harness declared the stream dead
-	dead      bool
-	recvCalls int
-	recvQ     chan recvCmd
+	mu         sync.Mutex
+	sendCalls  int
+	obs        []int // outbound message ids in MsgSend entry order
+	foreign    []string
+	parked     *parkedSend
+	drain      bool
+	free       bool // stress mode: a healthy stream's sends pass without parking
+	closed     bool
+	closeCalls int
+	closedCh   chan struct{}
+	endKnown   bool // a fake call has returned an error to the pool (the stream is ending)
+	lateSends  int  // MsgSend entries after the harness declared the stream dead
+	dead       bool
+	recvCalls  int
+	recvQ      chan recvCmd
 }
 
 func newFakeStream(key, peerId string, spec StreamSpec, tags []string) *fakeStream {
@@ -101,14 +102,35 @@ func newFakeStream(key, peerId string, spec StreamSpec, tags []string) *fakeStre
 func (f *fakeStream) Context() context.Context { return f.ctx }
 func (f *fakeStream) CloseSend() error         { return nil }
 
+var errCloseFail = errors.New("fake: close packet could not be written")
+
+// Close is what the pool calls. The stream is closed in any case (parked calls return);
+// spec.CloseErr makes it report an error like a drpc stream on a dead transport does
+// (1: every call, 2: only the first call).
 func (f *fakeStream) Close() error {
 	f.mu.Lock()
+	f.closeCalls++
+	n := f.closeCalls
+	f.closeLocked()
+	f.mu.Unlock()
+	if f.spec.CloseErr == 1 || (f.spec.CloseErr == 2 && n == 1) {
+		return errCloseFail
+	}
+	return nil
+}
+
+// extClose: the transport / the harness ends the stream (not counted as a pool Close call).
+func (f *fakeStream) extClose() {
+	f.mu.Lock()
+	f.closeLocked()
+	f.mu.Unlock()
+}
+
+func (f *fakeStream) closeLocked() {
 	if !f.closed {
 		f.closed = true
 		close(f.closedCh)
 	}
-	f.mu.Unlock()
-	return nil
 }
 
 func (f *fakeStream) MsgSend(msg drpc.Message, _ drpc.Encoding) error {
